@@ -225,11 +225,24 @@ def sub(a: int, b: int) -> int:
     return a - b
 
 
+MAX_SHIFT = 2 ** 16
+
+
+def times_power_of_two(a, b):
+    # a * 2 ** b. A shift by more than 64 Ki bits is refused like any other
+    # demand for more memory than there is: '2 ** b' ground for minutes on an
+    # absurd b, and a number of millions of digits that does get computed takes
+    # as long again to be printed in the diagnostic it inevitably ends up in.
+    if b > MAX_SHIFT:
+        raise MemoryError()
+    return a * (1 << b)
+
+
 @operator("x << x", precedence=5, associativity="left", awaited=False, pure=False, token=True)
 def lshift(token, a: int, b: int) -> int:
     b = wait(b)
     if b >= 0:
-        return a * 2 ** b
+        return times_power_of_two(a, b)
     else:
         reports.error(
             "arithmetic-error",
@@ -251,14 +264,14 @@ def rshift(token, a: int, b: int) -> int:
             "arithmetic-error",
             (token.ctx_start, token.ctx_end, f"Negative right shift: '>> {b}'. If you want this to be interpreted as '<< {-b}',\neither use << if you know the right hand side is always non-positive, or _ (with an inverted operand) if you don't.")
         )
-        return a * 2 ** (-b)
+        return times_power_of_two(a, -b)
 
 
 # It seems they were running out of characters.
 @operator("x _ x", precedence=5, associativity="left")
 def lsh(a: int, b: int) -> int:
     if b >= 0:
-        return a << b
+        return times_power_of_two(a, b)
     else:
         return a >> -b
 
